@@ -1,6 +1,6 @@
 #!/bin/bash
 # development helper: confirm a seeded change produced in /tmp/mut/<id> (+ /tmp/mut/<id>.out) and file it under /verif/seeded/<id>/
-# usage: tools/confirm_seeded.sh <id> <property> "<needs>" "<caught-by summary>"
+# usage: [DEMO_TREE=1] tools/confirm_seeded.sh <id> <property> "<needs>" "<caught-by summary>"   (DEMO_TREE=1: the demo takes the source tree as second argument)
 set -u
 id=$1; prop=$2; needs=$3; caught=$4
 wt=/tmp/mut/$id; out=/tmp/mut/$id.out
@@ -12,7 +12,7 @@ scratch=$(mktemp -d /var/tmp/confirm-XXXX)
 git -C /repo worktree add -q --detach $scratch/clean HEAD || exit 2
 (cd $scratch/clean && go build -o $scratch/convergen.orig . ) || { echo "orig build failed"; exit 2; }
 # the demo gets the binary and - if it asks for a second argument - the source tree it was built from
-tree=""; grep -q '\$2' $out/demo/run.sh && tree=$scratch/clean
+tree=""; [ "${DEMO_TREE:-0}" = 1 ] && tree=$scratch/clean
 demo_orig=$( (cd $out/demo && bash ./run.sh $scratch/convergen.orig $tree) >/dev/null 2>&1; echo $?)
 (cd $scratch/clean && git apply $out/patch.diff && go build -o $scratch/convergen.mut . ) || { echo "patch does not apply/build on /repo HEAD"; git -C /repo worktree remove --force $scratch/clean; exit 2; }
 tests=$(cd $scratch/clean && go test -count=1 ./... 2>&1 | grep -v "no test files")
